@@ -379,8 +379,8 @@ func ICMP6NeighborSolicitationMarshal(targetAddr netip.Addr, sourceLLA net.Hardw
 	// skip reserved 4 bytes
 	copy(b[8:], targetAddr.AsSlice())
 
-	// single option: SourceLLA option
-	b[24] = 2 // Target option
+	// single option: SourceLLA option (RFC 4861 4.6.1: type 1 is the source link-layer address)
+	b[24] = 1
 	b[25] = 1 // len 8 bytes
 	copy(b[26:], sourceLLA)
 	return b, nil
